@@ -1234,3 +1234,170 @@ pub async fn run_scripted_resource() {
         None => {}
     }
 }
+
+// ---------------------------------------------------------------------------------------
+// (b') scripted controller retiring a delivery under a transaction id that is not live
+
+/// The listener sends two deliveries on a feed link; the scripted controller declares a
+/// transaction, discharges it (or makes an id up) and then retires the first delivery under that
+/// dead id. A retirement is work under a transaction like a post: under an unknown or finished id
+/// it must be refused with the transaction error and must not be applied (the sending application
+/// must not see the delivery accepted or settled by it).
+pub async fn run_scripted_retirement_under_dead_id() {
+    let lcfg = EndpointCfg::default_cfg();
+    let (nab, nba, nd) = world::draw_net(false);
+    let never_declared = choice(3) == 0;
+    let rolled_back = choice(2) == 1;
+    sim::set_config(format!("variant=scripted-controller script=retire-under-{} {}", if never_declared { "never-declared-id" } else if rolled_back { "rolled-back-id" } else { "committed-id" }, nd));
+    sim::mark_nontrivial();
+    sim::set_panic_is_violation(true);
+    let lvp = match peer::peer_vs_listener(&lcfg, peer::open("ctrl", Some(65536), Some(255), None), nab, nba, Models::none()).await {
+        Some(x) => x,
+        None => return,
+    };
+    let peer::ListenerVsPeer { mut listener, mut peer, net, .. } = lvp;
+    let acc = SessionAcceptor::builder().control_link_acceptor(ControlLinkAcceptor::default()).build();
+    let lb = sim::in_group(2, async { acc.accept(&mut listener).await });
+    let pb = async {
+        peer.send(0, &peer::begin(None, 0, 2048, 2048)).await;
+        peer.expect(wire::BEGIN).await
+    };
+    let mut lsess = match sim::op("accept session", world::join2(lb, pb)).await {
+        Some((Ok(s), Some(_))) => s,
+        _ => return,
+    };
+    // outcome of each feed delivery as the sending application sees it
+    let outcomes: Rc<RefCell<Vec<(u64, String)>>> = Rc::new(RefCell::new(Vec::new()));
+    {
+        let outcomes = outcomes.clone();
+        sim::spawn(
+            "listener-session",
+            sim::in_group(2, async move {
+                let la = LinkAcceptor::new();
+                if let Ok(LinkEndpoint::Sender(mut s)) = la.accept(&mut lsess).await {
+                    let mut futs = Vec::new();
+                    for uid in [9001u64, 9002] {
+                        match s.send_batchable(message(uid, false)).await {
+                            Ok(f) => futs.push((uid, f)),
+                            Err(e) => outcomes.borrow_mut().push((uid, format!("send failed: {:?}", e))),
+                        }
+                    }
+                    for (uid, f) in futs {
+                        let r = f.await;
+                        outcomes.borrow_mut().push((uid, format!("{:?}", r)));
+                    }
+                    std::future::pending::<()>().await;
+                    drop(s);
+                }
+                let _ = lsess.on_end().await;
+            }),
+        );
+    }
+    // the feed link (peer is the receiver, handle 8) and the control link (peer handle 9)
+    peer.send(0, &peer::attach(&AttachArgs::receiver("feed", 8))).await;
+    let feed_attach = match sim::op("feed attach", peer.expect(wire::ATTACH)).await.flatten() {
+        Some(a) => a,
+        None => return,
+    };
+    let dc0 = feed_attach.perf.as_ref().unwrap().field(9).as_u32().unwrap_or(0);
+    let f = peer::FlowArgs { next_incoming_id: Some(0), incoming_window: 2048, next_outgoing_id: 0, outgoing_window: 2048, handle: Some(8), delivery_count: Some(dc0), link_credit: Some(10), ..Default::default() };
+    peer.send(0, &peer::flow(&f)).await;
+    let mut a = AttachArgs::sender("control", 9);
+    a.target = refcodec::described(COORDINATOR, vec![V::Array(vec![V::Sym("amqp:local-transactions".into())])]);
+    peer.send(0, &peer::attach(&a)).await;
+    // the two deliveries, the control attach and the coordinator's credit, in whatever order
+    let mut ids: Vec<u32> = Vec::new();
+    let mut got_attach = false;
+    let mut got_flow = false;
+    let deadline = tokio::time::Instant::now() + sim::OP_DEADLINE;
+    while (ids.len() < 2 || !got_attach || !got_flow) && tokio::time::Instant::now() < deadline {
+        match peer.recv_within(1000).await {
+            Some(Item::Frame(f)) => {
+                let p = match &f.perf {
+                    Some(p) => p,
+                    None => continue,
+                };
+                match f.code {
+                    wire::TRANSFER => {
+                        if let Some(id) = p.field(1).as_u32() {
+                            if !p.field(5).as_bool().unwrap_or(false) {
+                                ids.push(id);
+                            }
+                        }
+                    }
+                    wire::ATTACH => got_attach = true,
+                    wire::FLOW => {
+                        if got_attach && p.field(4).as_u32().is_some() {
+                            got_flow = true;
+                        }
+                    }
+                    _ => {}
+                }
+            }
+            Some(_) => {}
+            None => {
+                if peer.eof {
+                    break;
+                }
+            }
+        }
+    }
+    if ids.len() < 2 || !got_attach || !got_flow {
+        sim::violation("setup-failed", format!("feed deliveries {:?}, control attach answered {}, coordinator credit {}", ids, got_attach, got_flow));
+        return;
+    }
+    let mut c = ScriptedController { peer, next_id: 0, ctrl_count: 0 };
+    let dead: Vec<u8> = if never_declared {
+        (0..16).map(|_| choice(256) as u8).collect()
+    } else {
+        let id = match c.declare().await {
+            Some(id) => id,
+            None => {
+                sim::violation("declare-failed", "declare was not answered with declared".into());
+                return;
+            }
+        };
+        let st = c.discharge(&id, rolled_back).await;
+        if st.as_ref().map(|s| s.descriptor_code() != Some(0x24)).unwrap_or(true) {
+            sim::violation("discharge-failed", format!("discharge answered with {:?}", st));
+            return;
+        }
+        id
+    };
+    // retire the first delivery under the dead id
+    sim::fault("retirement-under-a-dead-transaction-id");
+    c.peer.send(0, &peer::disposition(true, ids[0], None, true, Some(txn_state(&dead, Some(peer::accepted()))))).await;
+    let mut frames: Vec<wire::WFrame> = Vec::new();
+    if !peer::settle(&mut c.peer, &net, |f| frames.push(f.clone())).await && !(c.peer.eof || c.peer.read_error.is_some()) {
+        return;
+    }
+    frames.extend(std::mem::take(&mut c.peer.skipped));
+    let refused = frames.iter().any(|f| {
+        let p = match &f.perf {
+            Some(p) => p,
+            None => return false,
+        };
+        let err = match f.code {
+            wire::END | wire::CLOSE => p.field(0),
+            wire::DETACH => p.field(2),
+            wire::DISPOSITION => return p.field(1).as_u32() == Some(ids[0]) && is_txn_rejection(p.field(4)),
+            _ => return false,
+        };
+        wire::error_condition(err).map(|c| c.starts_with("amqp:transaction:")).unwrap_or(false)
+    });
+    let seen = outcomes.borrow().clone();
+    if let Some((uid, o)) = seen.iter().find(|(_, o)| o.contains("Accepted")) {
+        sim::violation("retirement-under-dead-transaction-applied", format!("delivery {} was retired under a transaction id that is not live; the sending application has {}", uid, o));
+        return;
+    }
+    if !refused {
+        sim::violation(
+            "retirement-under-dead-transaction-not-refused",
+            format!("a retirement naming a transaction id that is not live was not refused with a transaction error; the listener wrote {:?}; the sending application has {:?}", frames.iter().map(wire::describe_frame).collect::<Vec<_>>(), seen),
+        );
+        return;
+    }
+    sim::probe("retirement-under-dead-id-refused");
+    c.peer.send(0, &peer::close(None)).await;
+    let _ = c.peer.drain_for(2000).await;
+}
